@@ -70,7 +70,12 @@ func ReplaceColumn(oldName, newName string) Rule {
 
 // AddSelectStar returns a Rule that adds * to the SELECT columns.
 func AddSelectStar() Rule {
-	return AddColumn(&ast.Identifier{Name: "*"})
+	// A fresh node per application: one rule value may be applied to several
+	// statements (or twice to one), and trees must not share nodes - releasing
+	// one of them would otherwise hand the shared node to the pool twice.
+	return RuleFunc(func(stmt ast.Statement) error {
+		return AddColumn(&ast.Identifier{Name: "*"}).Apply(stmt)
+	})
 }
 
 // columnMatches checks if a column expression matches the given name.
